@@ -198,4 +198,288 @@ def exData : Data := {
   relations := [] }
 example : (convert {} (fun _ => false) exData).map (fun f => (f.kind, f.id)) = [("way", 7), ("node", 1), ("node", 3)] := by decide
 
+/-! ## options on the whole output, relation features included -/
+
+/-- the same options with NoID and NoMeta switched off -/
+def base (o : Opts) : Opts := { o with noID := false, noMeta := false }
+
+/-- what NoID and NoMeta document: the feature id string is not set / the meta object is not added -/
+def strip (o : Opts) (f : Feature) : Feature :=
+  { f with idSet := !o.noID, metaKeys := if o.noMeta then none else f.metaKeys }
+
+theorem relationsProp_base (o : Opts) (d : Data) (t : MType) (id : Int) : relationsProp (base o) d t id = relationsProp o d t id := by
+  simp [relationsProp, membership, base]
+
+theorem metaProp_strip (o : Opts) (m : Meta) : (if o.noMeta then none else metaProp (base o) m) = metaProp o m := by
+  simp [metaProp, base]
+
+theorem nodeToFeature_strip (o : Opts) (d : Data) (n : NodeE) :
+    nodeToFeature o d n = (nodeToFeature (base o) d n).map (strip o) := by
+  unfold nodeToFeature
+  split
+  · rfl
+  · simp only [Option.map_some, strip, relationsProp_base, metaProp_strip]
+
+theorem wayToFeature_strip (o : Opts) (d : Data) (isP : WayE → Bool) (w : WayE) :
+    wayToFeature o d isP w = (wayToFeature (base o) d isP w).map (strip o) := by
+  unfold wayToFeature
+  simp only
+  split
+  · rfl
+  · simp only [Option.map_some, strip, relationsProp_base, metaProp_strip]
+
+theorem buildRoute_strip (o : Opts) (d : Data) (r : RelationE) (skip : Skip) :
+    buildRoute o d r skip = ((buildRoute (base o) d r skip).1.map (strip o), (buildRoute (base o) d r skip).2) := by
+  unfold buildRoute
+  simp only
+  split
+  · rfl
+  · simp only [Option.map_some, strip, relationsProp_base, metaProp_strip]
+
+theorem buildPolygon_strip (o : Opts) (d : Data) (r : RelationE) (skip : Skip) :
+    buildPolygon o d r skip = ((buildPolygon (base o) d r skip).1.map (strip o), (buildPolygon (base o) d r skip).2) := by
+  have hinc : (base o).includeInvalidPolygons = o.includeInvalidPolygons := rfl
+  unfold buildPolygon
+  simp only [hinc]
+  split
+  · rfl
+  · split
+    · split
+      · rfl
+      · split
+        · split <;> simp only [Option.map_some, strip, relationsProp_base, metaProp_strip]
+        · simp only [Option.map_some, strip, relationsProp_base, metaProp_strip]
+    · split
+      · rfl
+      · split
+        · rfl
+        · simp only [Option.map_some, strip, relationsProp_base, metaProp_strip]
+        · simp only [Option.map_some, strip, relationsProp_base, metaProp_strip]
+
+theorem relationPass_strip (o : Opts) (d : Data) :
+    relationPass o d = ((relationPass (base o) d).1.map (strip o), (relationPass (base o) d).2) := by
+  unfold relationPass
+  generalize d.relations = rs
+  -- generalise the accumulator
+  have key : ∀ (rs : List RelationE) (acc : List Feature × Skip),
+      rs.foldl (fun (st : List Feature × Skip) r =>
+        let tt := findTag r.tags "type"
+        if tt = "route" then
+          let (f, s) := buildRoute o d r st.2
+          (st.1 ++ f.toList, s)
+        else if tt = "multipolygon" ∨ tt = "boundary" then
+          let (f, s) := buildPolygon o d r st.2
+          (st.1 ++ f.toList, s)
+        else st) (acc.1.map (strip o), acc.2) =
+      (((rs.foldl (fun (st : List Feature × Skip) r =>
+        let tt := findTag r.tags "type"
+        if tt = "route" then
+          let (f, s) := buildRoute (base o) d r st.2
+          (st.1 ++ f.toList, s)
+        else if tt = "multipolygon" ∨ tt = "boundary" then
+          let (f, s) := buildPolygon (base o) d r st.2
+          (st.1 ++ f.toList, s)
+        else st) acc).1.map (strip o)),
+       (rs.foldl (fun (st : List Feature × Skip) r =>
+        let tt := findTag r.tags "type"
+        if tt = "route" then
+          let (f, s) := buildRoute (base o) d r st.2
+          (st.1 ++ f.toList, s)
+        else if tt = "multipolygon" ∨ tt = "boundary" then
+          let (f, s) := buildPolygon (base o) d r st.2
+          (st.1 ++ f.toList, s)
+        else st) acc).2) := by
+    intro rs
+    induction rs with
+    | nil => intro acc; rfl
+    | cons r rest ih =>
+      intro acc
+      simp only [List.foldl_cons]
+      by_cases h1 : findTag r.tags "type" = "route"
+      · simp only [h1, if_true]
+        rw [buildRoute_strip o d r acc.2]
+        have := ih (acc.1 ++ (buildRoute (base o) d r acc.2).1.toList, (buildRoute (base o) d r acc.2).2)
+        simp only [List.map_append] at this
+        cases hb : (buildRoute (base o) d r acc.2).1 <;> simp only [hb, Option.map_none, Option.map_some, Option.toList_none, Option.toList_some, List.map_nil, List.map_cons] at this ⊢ <;> exact this
+      · by_cases h2 : findTag r.tags "type" = "multipolygon" ∨ findTag r.tags "type" = "boundary"
+        · simp only [h1, h2, if_true, if_false]
+          rw [buildPolygon_strip o d r acc.2]
+          have := ih (acc.1 ++ (buildPolygon (base o) d r acc.2).1.toList, (buildPolygon (base o) d r acc.2).2)
+          simp only [List.map_append] at this
+          cases hb : (buildPolygon (base o) d r acc.2).1 <;> simp only [hb, Option.map_none, Option.map_some, Option.toList_none, Option.toList_some, List.map_nil, List.map_cons] at this ⊢ <;> exact this
+        · simp only [h1, h2, if_false]
+          exact ih acc
+  have := key rs ([], [])
+  simpa using this
+
+/-- **NoID and NoMeta change nothing but the id string and the meta object — on every feature, relation
+    features included, and on the whole output** (order, geometry, tags, relation membership, which elements get
+    a feature) -/
+theorem convert_noid_nometa (o : Opts) (isP : WayE → Bool) (d : Data) :
+    convert o isP d = (convert (base o) isP d).map (strip o) := by
+  have hw : ∀ skip, wayPass o d isP skip = fun w => (wayPass (base o) d isP skip w).map (strip o) := by
+    intro skip; funext w
+    unfold wayPass
+    split
+    · rfl
+    · exact wayToFeature_strip o d isP w
+  have hn : nodePass o d = fun n => (nodePass (base o) d n).map (strip o) := by
+    funext n
+    unfold nodePass
+    have hm : membership (base o) d .node n.id = membership o d .node n.id := by simp [membership, base]
+    rw [hm]
+    split
+    · rfl
+    · exact nodeToFeature_strip o d n
+  unfold convert
+  simp only
+  rw [relationPass_strip o d, hw, hn]
+  simp only [List.map_append, List.map_filterMap]
+
+/-! ### NoRelationMembership -/
+
+def withRels (o : Opts) : Opts := { o with noRelationMembership := false }
+
+def dropRels (o : Opts) (f : Feature) : Feature :=
+  { f with relations := if o.noRelationMembership then none else f.relations }
+
+theorem relationsProp_drop (o : Opts) (d : Data) (t : MType) (id : Int) :
+    (if o.noRelationMembership then none else relationsProp (withRels o) d t id) = relationsProp o d t id := by
+  unfold relationsProp
+  by_cases h : o.noRelationMembership = true
+  · simp [h]
+  · have : o.noRelationMembership = false := by simpa using h
+    have hm := membership_congr (withRels o) o d t id (by simp [withRels, this])
+    simp only [this, Bool.false_eq_true, if_false]
+    rw [← hm]
+    simp [withRels]
+
+theorem metaProp_withRels (o : Opts) (m : Meta) : metaProp (withRels o) m = metaProp o m := rfl
+
+theorem nodeToFeature_drop (o : Opts) (d : Data) (n : NodeE) :
+    nodeToFeature o d n = (nodeToFeature (withRels o) d n).map (dropRels o) := by
+  unfold nodeToFeature
+  split
+  · rfl
+  · simp only [Option.map_some, dropRels, relationsProp_drop, metaProp_withRels]
+    rfl
+
+theorem wayToFeature_drop (o : Opts) (d : Data) (isP : WayE → Bool) (w : WayE) :
+    wayToFeature o d isP w = (wayToFeature (withRels o) d isP w).map (dropRels o) := by
+  unfold wayToFeature
+  simp only
+  split
+  · rfl
+  · simp only [Option.map_some, dropRels, relationsProp_drop, metaProp_withRels]
+    rfl
+
+theorem buildRoute_drop (o : Opts) (d : Data) (r : RelationE) (skip : Skip) :
+    buildRoute o d r skip = ((buildRoute (withRels o) d r skip).1.map (dropRels o), (buildRoute (withRels o) d r skip).2) := by
+  unfold buildRoute
+  simp only
+  split
+  · rfl
+  · simp only [Option.map_some, dropRels, relationsProp_drop, metaProp_withRels]
+    rfl
+
+theorem buildPolygon_drop (o : Opts) (d : Data) (r : RelationE) (skip : Skip) :
+    buildPolygon o d r skip = ((buildPolygon (withRels o) d r skip).1.map (dropRels o), (buildPolygon (withRels o) d r skip).2) := by
+  have hinc : (withRels o).includeInvalidPolygons = o.includeInvalidPolygons := rfl
+  have hid : (withRels o).noID = o.noID := rfl
+  unfold buildPolygon
+  simp only [hinc, hid]
+  split
+  · rfl
+  · split
+    · split
+      · rfl
+      · split
+        · split <;> simp only [Option.map_some, dropRels, relationsProp_drop, metaProp_withRels]
+        · simp only [Option.map_some, dropRels, relationsProp_drop, metaProp_withRels]
+    · split
+      · rfl
+      · split
+        · rfl
+        · simp only [Option.map_some, dropRels, relationsProp_drop, metaProp_withRels]
+        · simp only [Option.map_some, dropRels, relationsProp_drop, metaProp_withRels]
+
+theorem relationPass_drop (o : Opts) (d : Data) :
+    relationPass o d = ((relationPass (withRels o) d).1.map (dropRels o), (relationPass (withRels o) d).2) := by
+  unfold relationPass
+  generalize d.relations = rs
+  -- generalise the accumulator
+  have key : ∀ (rs : List RelationE) (acc : List Feature × Skip),
+      rs.foldl (fun (st : List Feature × Skip) r =>
+        let tt := findTag r.tags "type"
+        if tt = "route" then
+          let (f, s) := buildRoute o d r st.2
+          (st.1 ++ f.toList, s)
+        else if tt = "multipolygon" ∨ tt = "boundary" then
+          let (f, s) := buildPolygon o d r st.2
+          (st.1 ++ f.toList, s)
+        else st) (acc.1.map (dropRels o), acc.2) =
+      (((rs.foldl (fun (st : List Feature × Skip) r =>
+        let tt := findTag r.tags "type"
+        if tt = "route" then
+          let (f, s) := buildRoute (withRels o) d r st.2
+          (st.1 ++ f.toList, s)
+        else if tt = "multipolygon" ∨ tt = "boundary" then
+          let (f, s) := buildPolygon (withRels o) d r st.2
+          (st.1 ++ f.toList, s)
+        else st) acc).1.map (dropRels o)),
+       (rs.foldl (fun (st : List Feature × Skip) r =>
+        let tt := findTag r.tags "type"
+        if tt = "route" then
+          let (f, s) := buildRoute (withRels o) d r st.2
+          (st.1 ++ f.toList, s)
+        else if tt = "multipolygon" ∨ tt = "boundary" then
+          let (f, s) := buildPolygon (withRels o) d r st.2
+          (st.1 ++ f.toList, s)
+        else st) acc).2) := by
+    intro rs
+    induction rs with
+    | nil => intro acc; rfl
+    | cons r rest ih =>
+      intro acc
+      simp only [List.foldl_cons]
+      by_cases h1 : findTag r.tags "type" = "route"
+      · simp only [h1, if_true]
+        rw [buildRoute_drop o d r acc.2]
+        have := ih (acc.1 ++ (buildRoute (withRels o) d r acc.2).1.toList, (buildRoute (withRels o) d r acc.2).2)
+        simp only [List.map_append] at this
+        cases hb : (buildRoute (withRels o) d r acc.2).1 <;> simp only [hb, Option.map_none, Option.map_some, Option.toList_none, Option.toList_some, List.map_nil, List.map_cons] at this ⊢ <;> exact this
+      · by_cases h2 : findTag r.tags "type" = "multipolygon" ∨ findTag r.tags "type" = "boundary"
+        · simp only [h1, h2, if_true, if_false]
+          rw [buildPolygon_drop o d r acc.2]
+          have := ih (acc.1 ++ (buildPolygon (withRels o) d r acc.2).1.toList, (buildPolygon (withRels o) d r acc.2).2)
+          simp only [List.map_append] at this
+          cases hb : (buildPolygon (withRels o) d r acc.2).1 <;> simp only [hb, Option.map_none, Option.map_some, Option.toList_none, Option.toList_some, List.map_nil, List.map_cons] at this ⊢ <;> exact this
+        · simp only [h1, h2, if_false]
+          exact ih acc
+  have := key rs ([], [])
+  simpa using this
+
+/-- **NoRelationMembership removes the relations list and nothing else** — from every feature; which elements get a
+    feature (a node's interest through membership included), order, geometry, tags, meta stay as they are -/
+theorem convert_norelmembership (o : Opts) (isP : WayE → Bool) (d : Data) :
+    convert o isP d = (convert (withRels o) isP d).map (dropRels o) := by
+  have hw : ∀ skip, wayPass o d isP skip = fun w => (wayPass (withRels o) d isP skip w).map (dropRels o) := by
+    intro skip; funext w
+    unfold wayPass
+    split
+    · rfl
+    · exact wayToFeature_drop o d isP w
+  have hn : nodePass o d = fun n => (nodePass (withRels o) d n).map (dropRels o) := by
+    funext n
+    unfold nodePass
+    rw [membership_node_indep (withRels o) o d n.id]
+    split
+    · rfl
+    · exact nodeToFeature_drop o d n
+  unfold convert
+  simp only
+  rw [relationPass_drop o d, hw, hn]
+  simp only [List.map_append, List.map_filterMap]
+
+
 end OsmVerif.Props.C17
